@@ -214,7 +214,11 @@ func (k c13) enumerate(c *rt.Ctx, q string, pairs []refstore.Pair, m drive.Mode)
 		op := log[i].OpS
 		rec.Inc("fail:" + op + ":" + md)
 		cluster := op + " / " + md + " / " + rt.Shape(q)
-		if fo.Status() == "panic" || fo.Status() == "runaway" {
+		if fo.Status() == "runaway" {
+			c.Violation("storage-polled-without-end-after-failed-call", cluster, detail(rt.D{"fault_index": i, "failed_op": op, "calls_after_fault": fs.AfterFault}, flog, fo))
+			return
+		}
+		if fo.Status() == "panic" {
 			c.Violation("panic-after-storage-error", cluster, detail(rt.D{"fault_index": i, "failed_op": op}, flog, fo))
 			return
 		}
